@@ -88,6 +88,28 @@ CHECKS = {
         note=TB + " Partial where stated: the rig_c_sa C kernel is third-party compiled code (outputs validated only); the float "
              "temperature loop is not modelled (termination observed under an alarm); set iteration order inside the bf/RCM order "
              "functions is recorded per instance, not modelled."),
+    "C04": dict(
+        text="Full. Universal theorems about Gallina models of all minimisers whose bit kernels (intersect, generality, merge "
+             "key/mask expressions) are regenerated from the source on every run: default-route removal preserves the routing "
+             "of every matched key for ANY ordered table and any target; ordered covering (sort, binary-search insertion index, "
+             "best merge, up/down refinement, alias bookkeeping) preserves it for every table in the minimiser domain (sorted "
+             "by generality or orthogonal), terminates, is never longer and meets the target or fails with the exact best size; "
+             "the try-each-method front ends (one table / many chips, None/int/dict targets). A verified validator "
+             "check_route_eq (cube subtraction, no key enumeration, soundness proved) is evaluated in Coq on every table the "
+             "implementation returns. Exact table/alias/error correspondence; brute-force oracle over all keys.",
+        ref="4 C04", technique="Coq proof (loop invariant of ordered covering; verified validator) + py2v translation + vm_compute correspondence",
+        note=TB + " The two-round use of ordered_covering with aliases from an earlier call is tied by correspondence only; "
+             "entries with empty source sets are outside the stated domain."),
+    "C20": dict(
+        text="Full. Universal theorems over all images, option sets and boot histories about a Gallina model of boot() driven "
+             "by constants, struct formats and the live sv struct regenerated from the source/modules on every run: datagram "
+             "sequence (start announcing n-1, blocks 0..n-1 of <= 1 KiB, end), byte-exact reassembly (image except the 128-byte "
+             "configuration area = packed sv defaults with THIS call's options), returned struct definitions, history "
+             "independence and untouched dictionaries for the repaired code, refutations for the code as found (option leak, "
+             "caller's dict mutated), error branches. Exact datagram correspondence for sequences of 1-4 boots through boot() "
+             "and MachineController.boot against a recording socket and scripted clock; independent reassembly oracle.",
+        ref="4 C20", technique="Coq proof (struct-format interpreter, history induction) + dumped constants/struct (T) + vm_compute datagram correspondence",
+        note=TB + " OS socket and clock are explicit inputs; rig's struct-file parser is tied by correspondence only."),
 }
 NOT_YET = {}
 def main():
